@@ -197,6 +197,15 @@ def run(ctx):
     root = thir.root(f)
     # ---- R17.1 env variable table
     ms = [m for m in thir.find(root, "match") if m["src"] == "Normal" and "EventKind" in m["sty"]]
+    if not ms:
+        # the table moved into a private helper of the module (`fn summary_category(kind) -> &'static str`): read it there
+        for c_, n_ in thir.calls_in(root):
+            g_ = facts.find_fn(strip_generics(c_)) if strip_generics(c_).startswith("watchexec::paths::") else None
+            if g_ is not None and getattr(g_, "thir", None):
+                b_ = thir.peel(thir.root(g_))
+                if isinstance(b_, dict) and b_.get("k") == "match" and b_.get("src") == "Normal" and "EventKind" in b_["sty"]:
+                    ctx.saw_fn(g_)
+                    ms.append(b_)
     if len(ms) != 1:
         ctx.violation("R17.1", "floor:shape:kind-match", "expected one match over the event kind, found %d" % len(ms), f.loc(f.line))
     else:
